@@ -310,6 +310,11 @@ def run(ctx):
             viol("C2Http.iter_recover_http(keys=)", "session_keys_iv", {"default_iv": iv == b"abcdefghijklmnop", "direction": "task", "got": str(o)[:200]})
         ctx.count_distinct(("session_iv", iv == b"abcdefghijklmnop", len(cbs)))
 
+    # a message with several packets, keys of the call against keys of the decoder: PacketStream.tla
+    from vt.checks import xpacketstream
+
+    xpacketstream.stream_part(ctx, c2, beacon_mod.BeaconConfig(blk), rng)
+
     # session keys made from metadata / from the 16 random bytes carry the IV they were given
     for _ in range(4 if q else 40):
         seed16, ivx = rng.randbytes(16), rng.choice([b"abcdefghijklmnop", rng.randbytes(16)])
